@@ -136,6 +136,7 @@ def run(tier, seed, replay=None):
                        'volumes are integers in generated data, so numpy summation order does not matter']
     from translator import gen_all
     ok, msgs = gen_all.generate()
+    msgs = gen_all.relevant(msgs, ['timeframes']); ok = not msgs
     res.oblige('translator regenerated the timeframe tables', ok, '\n'.join(msgs))
     C.standard_proof_step(res, 'Props.C07', THEOREMS, ['theories/Props/C07.vo', 'theories/Run/C07Run.vo'])
     rng = C.rng_for(seed, PID)
